@@ -329,6 +329,34 @@ func runC01(c *Ctx) {
 		r.Check("R01.5", FuncName(fs.Fn), "store Cell.raw", fs.St.Pos(), fs.Fresh, "the stored item is replaced after construction (only a constructor's fresh cell may set it)")
 	}
 	r.Floor("R01.5", "writers of Cell.raw", nraw, 1)
+	// the constructor wraps whatever it is given: every cell it returns is one it built, holding the argument itself
+	if nc := c.Func("", "NewCell"); nc != nil && len(nc.Params) == 1 {
+		for i, ret := range returnsOf(nc) {
+			ok, why := false, "the returned cell is not one built here around the argument"
+			for _, v := range phiClosure(results(ret)[0]) {
+				ld, isLd := v.(*ssa.UnOp)
+				if !isLd {
+					ok, why = false, "returns "+v.String()+": an item that is itself a cell must still be stored as the item of a new cell"
+					break
+				}
+				al, isAl := ld.X.(*ssa.Alloc)
+				if !isAl {
+					ok = false
+					break
+				}
+				ok = false
+				for _, fs := range c.StoresTo(raw) {
+					if fs.Fn == nc && fs.Base == ssa.Value(al) && fs.St.Val == ssa.Value(nc.Params[0]) && instrDominates(fs.St, ret) {
+						ok = true
+					}
+				}
+				if !ok {
+					break
+				}
+			}
+			r.Check("R01.5", FuncName(nc), fmt.Sprintf("return #%d is a cell built here whose item is the argument, unchanged", i+1), ret.Pos(), ok, why)
+		}
+	}
 	if item := c.Method(cell, false, "Item"); item != nil {
 		for i, ret := range returnsOf(item) {
 			v := results(ret)[0]
